@@ -20,6 +20,7 @@ func init() {
 		ruleS17_5(c, "C17.S5")
 		ruleS17_6(c, "C17.S6")
 		ruleS17_7(c, "C17.S7")
+		ruleS17_8(c, "C17.S8")
 		ruleV1x(c, "C17.V1", []string{"simple.MakeFh"}, 1)
 		ruleV5(c, "C17.V5")
 	}
@@ -1438,3 +1439,221 @@ func ruleS17_7(c *Ctx, id string) {
 	}
 }
 
+
+// ruleS17_8: NFS3_OK is the zero value of the status: a reply whose Status
+// nobody stored says "done".  Every return of a SimpleNFS procedure must have a
+// store to the reply's Status on its path (its own, or that of a function it
+// hands the reply to which stores on all its paths); and a helper that answers
+// "false" (do not commit) has stored a failing status on that path - otherwise
+// a refused, unsupported or failed request is acknowledged as a success.
+func ruleS17_8(c *Ctx, id string) {
+	P, R := c.P, c.R
+	R.Rule(id, "no SimpleNFS reply says OK by default: every return of a procedure is preceded by a store to the reply's Status; every 'false' answer of a helper that is handed the reply is preceded by a store of a failing status", 20)
+	isStatusStore := func(in ssa.Instruction) bool {
+		st, ok := in.(*ssa.Store)
+		if !ok {
+			return false
+		}
+		p := fieldPath(st.Addr)
+		return p == "Status" || strings.HasSuffix(p, ".Status") || p == "Fhs_status"
+	}
+	isFailStore := func(in ssa.Instruction) bool {
+		st, ok := in.(*ssa.Store)
+		if !ok || !isStatusStore(in) {
+			return false
+		}
+		k, isk := constIntDeep(st.Val)
+		return isk && k != 0
+	}
+	// "stored" at every return: a forward must-analysis over the blocks.  A block stores when it holds a store
+	// to a Status, or a call of a function that stores at all its returns; the 'false' side of a helper that is
+	// handed the reply stores too (the second clause checks that helper).
+	takesReplyBool := func(g *ssa.Function) bool {
+		if g == nil || g.Signature.Results().Len() != 1 {
+			return false
+		}
+		bt, isB := g.Signature.Results().At(0).Type().Underlying().(*types.Basic)
+		if !isB || bt.Kind() != types.Bool {
+			return false
+		}
+		for _, p := range g.Params {
+			if n := derefNamed(p.Type()); n != nil && strings.HasSuffix(n.Obj().Name(), "3res") {
+				return true
+			}
+		}
+		return false
+	}
+	memo := map[*ssa.Function]int{} // 1 in progress, 2 yes, 3 no
+	var storedAtReturns func(fn *ssa.Function) (bool, []*ssa.Return)
+	var allReturnsStore func(fn *ssa.Function) bool
+	storedAtReturns = func(fn *ssa.Function) (bool, []*ssa.Return) {
+		in := map[*ssa.BasicBlock]bool{}
+		out := map[*ssa.BasicBlock]bool{}
+		for _, b := range fn.Blocks {
+			in[b], out[b] = true, true
+		}
+		in[fn.Blocks[0]] = false
+		blockStores := func(b *ssa.BasicBlock) bool {
+			for _, x := range b.Instrs {
+				if isStatusStore(x) {
+					return true
+				}
+				if _, isC := x.(*ssa.Call); isC {
+					if g := staticCallee(x); g != nil && IsRepoFunc(g) && g.Blocks != nil && !takesReplyBool(g) && allReturnsStore(g) {
+						return true
+					}
+				}
+			}
+			return false
+		}
+		edgeStores := func(from, to *ssa.BasicBlock) bool {
+			iff, ok := from.Instrs[len(from.Instrs)-1].(*ssa.If)
+			if !ok || from.Succs[0] == from.Succs[1] {
+				return false
+			}
+			cond, neg := iff.Cond, false
+			for {
+				if u, isU := cond.(*ssa.UnOp); isU && u.Op == token.NOT {
+					cond, neg = u.X, !neg
+					continue
+				}
+				break
+			}
+			cl, isC := cond.(*ssa.Call)
+			if !isC || !takesReplyBool(staticCallee(cl)) {
+				return false
+			}
+			falseSucc := from.Succs[1]
+			if neg {
+				falseSucc = from.Succs[0]
+			}
+			return to == falseSucc
+		}
+		for changed := true; changed; {
+			changed = false
+			for _, b := range fn.Blocks {
+				v := b != fn.Blocks[0]
+				if b == fn.Blocks[0] {
+					v = false
+				} else {
+					v = true
+					for _, p := range b.Preds {
+						if !(out[p] || edgeStores(p, b)) {
+							v = false
+						}
+					}
+					if len(b.Preds) == 0 {
+						v = true
+					}
+				}
+				o := v || blockStores(b)
+				if v != in[b] || o != out[b] {
+					in[b], out[b], changed = v, o, true
+				}
+			}
+		}
+		okAll := true
+		var bad []*ssa.Return
+		for _, b := range fn.Blocks {
+			if r, ok := b.Instrs[len(b.Instrs)-1].(*ssa.Return); ok && !out[b] {
+				okAll = false
+				bad = append(bad, r)
+			}
+		}
+		return okAll, bad
+	}
+	allReturnsStore = func(fn *ssa.Function) bool {
+		switch memo[fn] {
+		case 1, 3:
+			return false
+		case 2:
+			return true
+		}
+		memo[fn] = 1
+		ok, _ := storedAtReturns(fn)
+		if ok {
+			memo[fn] = 2
+		} else {
+			memo[fn] = 3
+		}
+		return ok
+	}
+	pk := P.Pkg("simple")
+	if pk == nil {
+		R.Unresolved(id, "package simple")
+		return
+	}
+	for _, fn := range P.RepoFuncs("simple") {
+		if fn.Parent() != nil || fn.Blocks == nil {
+			continue
+		}
+		name := fn.Name()
+		isProc := fn.Signature.Recv() != nil && (strings.HasPrefix(name, "NFSPROC3_") || strings.HasPrefix(name, "MOUNTPROC3_"))
+		if isProc && fn.Signature.Results().Len() == 1 {
+			// procedures without a status in their reply (NULL, UMNT, DUMP, EXPORT) have nothing to store
+			hasStatus := false
+			if st, ok := fn.Signature.Results().At(0).Type().Underlying().(*types.Struct); ok {
+				for i := 0; i < st.NumFields(); i++ {
+					if st.Field(i).Name() == "Status" || st.Field(i).Name() == "Fhs_status" {
+						hasStatus = true
+					}
+				}
+			}
+			if !hasStatus {
+				continue
+			}
+			nr := 0
+			_, badRets := storedAtReturns(fn)
+			isBad := map[*ssa.Return]bool{}
+			for _, r := range badRets {
+				isBad[r] = true
+			}
+			for _, b := range fn.Blocks {
+				r, ok := b.Instrs[len(b.Instrs)-1].(*ssa.Return)
+				if !ok {
+					continue
+				}
+				nr++
+				R.Analysed[FuncName(fn)] = true
+				R.Check(!isBad[r], id, fmt.Sprintf("simple.%s|return#%d has a status", name, nr), P.Pos(r.Pos()), "a store to the reply's Status lies on every path to this return", "must-precede", "a path returns a reply whose Status was never stored: it is NFS3_OK, the zero value - a request that was refused, is not supported, or failed is acknowledged")
+			}
+		}
+		// helpers that are handed the reply and answer a boolean
+		if !isProc && fn.Signature.Results().Len() == 1 {
+			bt, isB := fn.Signature.Results().At(0).Type().Underlying().(*types.Basic)
+			takesReply := false
+			for _, p := range fn.Params {
+				if n := derefNamed(p.Type()); n != nil && strings.HasSuffix(n.Obj().Name(), "3res") {
+					takesReply = true
+				}
+			}
+			if !isB || bt.Kind() != types.Bool || !takesReply {
+				continue
+			}
+			nf := 0
+			check := func(at ssa.Instruction) {
+				nf++
+				R.Analysed[FuncName(fn)] = true
+				R.Check(isFailStore(at) || MustBefore(fn, isFailStore)(at), id, fmt.Sprintf("simple.%s|false#%d has a failing status", name, nf), P.Pos(at.Pos()), "a store of a failing status lies on every path to this 'false'", "must-precede", "the helper says 'do not commit' without saying why: the reply keeps NFS3_OK, the zero value - the caller returns it and the client takes the request for done")
+			}
+			for _, b := range fn.Blocks {
+				r, ok := b.Instrs[len(b.Instrs)-1].(*ssa.Return)
+				if !ok {
+					continue
+				}
+				if bv, isb := constBool(r.Results[0]); isb && !bv {
+					check(r)
+					continue
+				}
+				if ph, isP := r.Results[0].(*ssa.Phi); isP && ph.Block() == b {
+					for i, e := range ph.Edges {
+						if bv, isb := constBool(e); isb && !bv {
+							pred := b.Preds[i]
+							check(pred.Instrs[len(pred.Instrs)-1])
+						}
+					}
+				}
+			}
+		}
+	}
+}
